@@ -130,3 +130,11 @@ P("C11", "srcfacts+mirfacts+rules",
   "validators of the same field.  Parsing side decided structurally only: each parsing function that recognises syntax by substring search "
   "on the stringified tokens is reported (4 recorded findings with witnesses); numeric re-parsing exactness is not claimed.",
   "the statement's rendering table is the oracle; Zod's runtime is trusted", a=True, b=True)
+
+P("C06", "srcfacts+mirfacts+rules",
+  "static analysis: path order of the naming function (SV), reachability of the variant rule under is_enum with divert-branch enumeration (CALLS/CTRL), substring-search sites of the attribute recognisers (CALLS), None-exit guards (CTRL), key/literal hole bindings (TPATH)",
+  "Decides: compute_field_name tries rename, then rename_all, then the default, and the default field case is snake_case; enum variants reach "
+  "RenameRule::apply_to_variant under StructInfo.is_enum with no further diverting branch; serde attribute recognition (skip / rename / "
+  "rename_all / derive list) does no substring search on stringified tokens; parse_field drops a field only under skip; interface keys, "
+  "z.object keys, enum literals and z.enum literals are bound to the serialized name.",
+  "serde_rename_rule's tables are trusted to equal serde's", a=True, b=True)
